@@ -39,7 +39,19 @@ def keywords():
 
 def make_ident(rng, base, classes=None):
     """returns (spelled, bare)"""
-    cls = rng.choice(classes or ["lower", "upper", "mixed", "dq", "bt", "br", "dq", "br", "kw_dq", "kw_bt", "kw_br", "space_dq", "underscore", "nested", "digit"])
+    cls = rng.choice(classes or ["lower", "upper", "mixed", "dq", "bt", "br", "dq", "br", "kw_dq", "kw_bt", "kw_br", "space_dq", "underscore", "nested", "digit",
+                                 "special", "special_delim", "kwprefix", "kwprefix"])
+    if cls == "special":        # undelimited name containing # $ @ (allowed by the lexer's identifier class; never at the start: '#' opens a MySQL comment line)
+        name = rng.choice([base + "#", "ord#" + base[-3:], base + "$", base[:2] + "@" + base[2:], base + "#1", base[:3] + "#" + base[3:] + "#"])
+        return name, name
+    if cls == "special_delim":
+        a, b = DELIMS[rng.choice(["bt", "br"])]
+        name = rng.choice([base + "#", "Item#" + base[-3:], "#" + base, base + "#1"])
+        return a + name + b, name
+    if cls == "kwprefix":       # a name that merely *starts with / contains* a grammar keyword (collateral, settings, created_at, keys ...)
+        kw = rng.choice([k for k in keywords() if k != "ARRAY"])     # upper-case ARRAY* names are a listed defect, enumerated below
+        name = rng.choice([kw.lower() + "ral_", kw.lower() + "s_", kw.capitalize() + "_", kw.lower() + "d_at_", kw.upper() + "_", "x_" + kw.lower() + "_"]) + base[-3:]
+        return name, name
     if cls == "lower":
         return base.lower(), base.lower()
     if cls == "upper":
@@ -317,6 +329,26 @@ def run_shard(ctx):
                 i += 1
                 if ctx.mine(i):
                     check_case(ctx, {"gen": "kw_position", "word": sp, "position": pos})
+    # names that merely start with a grammar keyword (collateral, keys, created_at, settings ...): enumerated for every keyword
+    kwset = set(kws)
+    for w in kws:
+        for suffix in ("ral", "s", "_id", "d_at"):
+            for sp in (w.lower() + suffix, w.capitalize() + suffix):
+                if sp.upper() in kwset or sp.upper().startswith("ARRAY"):
+                    continue
+                i += 1
+                if not ctx.mine(i):
+                    continue
+                check_case(ctx, {"gen": "kw_column", "word": sp, "pos": i % 3, "layout": "multi" if i % 2 else "single"})
+                for pos in ("table", "col_in_pk_list", "index", "ref_table", "sequence", "alter_target"):
+                    check_case(ctx, {"gen": "kw_position", "word": sp, "position": pos})
+                ctx.obs["keyword_prefixed_names"] += 1
+    # names that merely start with ARRAY (typed ARRAY by the lexer at some positions: listed by position)
+    for sp in ["ARRAY_x", "ARRAYS", "ARRAY1", "Array_x", "array_x", "arrays"]:
+        for pos in KW_POSITIONS:
+            i += 1
+            if ctx.mine(i):
+                check_case(ctx, {"gen": "kw_position", "word": sp, "position": pos})
     for w in ['"KEY"', "`KEY`", "[KEY]", '"key"', "[Key]", '"KEYS"', "[INDEX]", '"PRIMARY"', "`unique`"]:
         i += 1
         if ctx.mine(i):
